@@ -131,7 +131,11 @@ func castNodesWithTag(node Node, tag Tag, t interface{}) interface{} {
 }
 
 func DeleteNodesWithTag(node Node, tag Tag) {
-	for _, n := range node.Nodes() {
+	// DeleteNode shifts the children within the slice that Nodes() returns, so
+	// ranging over that slice would skip the node after each one removed.
+	children := append(Nodes{}, node.Nodes()...)
+
+	for _, n := range children {
 		if n.Tag().Is(tag) {
 			node.DeleteNode(n)
 		}
